@@ -176,7 +176,9 @@ func (r *Run) scribble(c *Call) []*Violation {
 			}
 		case "scalar":
 			kind = "scribble/ctor"
-			one, _ := new(edwards25519.Scalar).SetCanonicalBytes(append([]byte{1}, make([]byte, 31)...))
+			// (built in memory: a library call of the harness's own inside the
+			// snapshot window would be blamed for any statistics it updates)
+			one := ScalarFromInt(big.NewInt(1))
 			switch mode {
 			case 0:
 				setScalarRaw(l.S, alpha.ScalarRaw{pat.Uint64(), pat.Uint64(), pat.Uint64(), pat.Uint64() >> 4})
